@@ -1,4 +1,5 @@
 """State shared by vlib.fixtures.decodables and its alias module vlib.fixtures.decodables_alt."""
 EVENTS = []          # dicts appended by every lifecycle participant
 CURRENT = [None]     # the model most recently created by RModel.decode (for events that are not handed the model)
+FLAKY = {'armed': False}     # while armed, FlakyAgent / FailingSystem raise at their scripted point
 SHARED = {}          # 'decoder' / 'inner': set by the harness for hooks that decode a nested description
